@@ -27,7 +27,9 @@ RULE = (
     "hosts with 1-4 (1-8) cores and a client count 1-24 (1-64). Exhaustive sub-domain: every layout of <= 3 hosts x <= 4 cores x 1..16 clients "
     "(thorough: <= 4 hosts x <= 6 cores x 1..48 clients). Non-trivial = the schedule handed to the allocator contains a parallel element whose "
     "cap differs from the sum of its tasks' clients (capped or over-committed), or a filter removed every task of a parallel element; for "
-    "layout-only cases: client count not divisible by the total number of cores. Distinct = distinct canonical JSON."
+    "layout-only cases: client count not divisible by the total number of cores. 1 case in 12 is a driver-level case: a two-task race on the actor "
+    "simulator with 1-4 load-driver host entries that may name the same machine twice; what the workers started by Driver.start_benchmark hold is "
+    "compared with client ids 0..n-1. Distinct = distinct canonical JSON."
 )
 ASSUMPTIONS = [
     "task names are unique within a schedule, clients >= 1, parallel cap >= 1, every host has >= 1 core (what the track schema and Driver.prepare_benchmark guarantee)",
